@@ -166,7 +166,8 @@ func (st *state) onLog(e *simapi.LogEntry) {
 			for _, l := range w.Store.Log {
 				if l.TaskID == e.TaskID && l.Seq < e.Seq && l.Read && l.Verb == "get" && l.Key == e.Key && l.Injected == "" {
 					if first {
-						if _, _, bound := claimRefOf(l.After); l.After == nil || !bound {
+						// absent, unbound, or still bound to this very claim
+						if bns, bname, bound := claimRefOf(l.After); l.After == nil || !bound || (bns == ck.Namespace && bname == ck.Name) {
 							sig += "/bound-by-the-other-claim-after-this-reconcile-first-looked"
 						}
 						first = false
